@@ -47,16 +47,17 @@ IR_RUNS.update({
             "thorough": [("MC", "c15_edif", 0), ("MC", "c15_vlog", 0), ("MC", "c15_eblif", 0)]},
     "C16": {"quick": [("MC", "c16_edif_arr", 0), ("MC", "c16_eblif_noname", 1), ("MC", "c16_eblif_nolib", 1), ("MC", "c16_edif", 2), ("MC", "c16_edif3", 2), ("MC", "c16_vlog", 1), ("MC", "c16_eblif", 2)],
             "thorough": [("MC", "c16_edif_arr", 0), ("MC", "c16_eblif_noname", 2), ("MC", "c16_eblif_nolib", 2), ("MC", "c16_edif", 3), ("MC", "c16_vlog", 2), ("MC", "c16_eblif", 3), ("MC", "c16_edif", 12, 300)]},
-    "C18": {"quick": [("MC", "eblif_read", 3), ("MC", "eblif_rt", 2), ("MC", "eblif_latch", 2), ("MC", "eblif_latch_rt", 3), ("MC", "eblif_names", 2),
+    "C18": {"quick": [("MC", "eblif_read", 3), ("MC", "eblif_rt", 2), ("MC", "eblif_latch", 2), ("MC", "eblif_latch_rt", 3), ("MC", "eblif_names", 2), ("MC", "eblif_inout", 1),
                       ("MC", "eblif_read", 10, 14), ("FILES", "eblif_file", 9000), ("FILES", "eblif_rt", 9000)],
-            "thorough": [("MC", "eblif_read", 4), ("MC", "eblif_rt", 3), ("MC", "eblif_latch", 4), ("MC", "eblif_latch_rt", 4), ("MC", "eblif_names", 3),
+            "thorough": [("MC", "eblif_read", 4), ("MC", "eblif_rt", 3), ("MC", "eblif_latch", 4), ("MC", "eblif_latch_rt", 4), ("MC", "eblif_names", 3), ("MC", "eblif_inout", 2),
                          ("MC", "eblif_read", 12, 300), ("FILES", "eblif_file", 9000), ("FILES", "eblif_rt", 9000)]},
-    "C17": {"quick": [("MC", "edif_names", 0), ("MC", "edif_reexport", 0)], "thorough": [("MC", "edif_names", 0), ("MC", "edif_reexport", 0)]},
+    "C17": {"quick": [("MC", "edif_names", 0), ("MC", "edif_reexport", 0), ("MC", "edif_rt_memo", 0), ("MC", "edif_rt_case", 0)],
+            "thorough": [("MC", "edif_names", 0), ("MC", "edif_reexport", 0), ("MC", "edif_rt_memo", 0), ("MC", "edif_rt_case", 0), ("MC", "edif_rt_br", 2)]},
     "C05": {"quick": [("MC", "edif_read", 2), ("MC", "edif_read1", 1), ("MC", "edif_read", 10, 8), ("MC", "edif_read_br", 1), ("MC", "edif_read2", 1), ("MC", "edif_read_case", 0), ("FILES", "edif_file", 12000)],
             "thorough": [("MC", "edif_read", 3), ("MC", "edif_read1", 3), ("MC", "edif_read", 12, 200), ("MC", "edif_read_br", 2), ("MC", "edif_read_case", 0), ("FILES", "edif_file", 40000)]},
-    "C03": {"quick": [("MC", "edif_rt", 3), ("MC", "edif_rt2", 2), ("MC", "edif_rt", 10, 40), ("MC", "edif_rt_br", 1), ("MC", "edif_rt_case", 0), ("MC", "edif_reexport", 0), ("FILES", "edif_rt", 4000)],
+    "C03": {"quick": [("MC", "edif_rt", 3), ("MC", "edif_rt2", 2), ("MC", "edif_rt", 10, 40), ("MC", "edif_rt_br", 1), ("MC", "edif_rt_case", 0), ("MC", "edif_rt_memo", 0), ("MC", "edif_reexport", 0), ("FILES", "edif_rt", 4000)],
             "thorough": [("MC", "edif_rt", 4), ("MC", "edif_rt1", 4), ("MC", "edif_rt", 12, 1500), ("MC", "edif_rt_br", 2), ("MC", "edif_rt_case", 0), ("MC", "edif_reexport", 0), ("FILES", "edif_rt", 40000)]},
-    "C20": {"quick": [("MC", "compare", 0)], "thorough": [("MC", "compare", 0)]},
+    "C20": {"quick": [("MC", "compare", 0), ("MC", "compare_assign", 0)], "thorough": [("MC", "compare", 0), ("MC", "compare_assign", 0)]},
     "C13": {"quick": [("MC", "query", 1), ("MC", "query_edif", 0), ("MC", "query_edif_ref", 0), ("MC", "query_nons", 0)],
             "thorough": [("MC", "query", 30), ("MC", "query_edif", 0), ("MC", "query_edif_ref", 0), ("MC", "query_nons", 0)]},
     "C08": {"quick": [("MC", "xf", 3), ("MC", "xf_port", 4), ("MC", "xf", 12, 40), ("MC", "xf_late", 12, 40), ("MC", "xf_port2", 12, 40), ("MC", "xf4", 2), ("MC", "xf_noport", 2), ("MC", "xf_unnamed", 1)],
